@@ -5,4 +5,6 @@ var verifHarnesses = map[string]func(){
 	"VerifMountJournalTx": VerifMountJournalTx,
 	"VerifMountWALTx":     VerifMountWALTx,
 	"VerifMountLocks":     VerifMountLocks,
+	"VerifMountPos":       VerifMountPos,
+	"VerifMountDrop":      VerifMountDrop,
 }
